@@ -248,3 +248,18 @@ claim('C17', 'fault_enumeration',
       'first retry after a failed statement step (storage-engine layer).',
       'runtime monitoring: exhaustive single-fault injection at the allocator boundary with unfaulted twin runs as oracle, under ASan/UBSan and an allocation ledger',
       'DESIGN.md section 4, C17')
+
+claim('C16', 'exploration',
+      'ASan, UBSan, the allocation ledger (every malloc / calloc / realloc / strdup / free of the library and its hash '
+      'tables, link-time wrapped), SQLite block and handle counters (ICU converters and files, SQLite connections and '
+      'statements) and the numeric-locale / rounding-mode probes after every library call are active in every check of '
+      'this suite and reported under that check.  The C16 check proper replays slices of twelve other workloads (C01, C02, '
+      'C03, C04, C06, C07, C10, C12, C13, C14, C15, C19) as sessions ending in full teardown under each of the four '
+      'rounding modes (set around every outermost call; must be unchanged after it), judging only instrument reports; '
+      'and runs 24 (thorough 300) hostile inputs through the uninstrumented parse runner (parse x3, walk, write, modify, '
+      'destroy) under valgrind memcheck with definite / indirect leaks as errors.',
+      'Functional verdicts of the replayed workloads are ignored in C16 (their oracles assume the default rounding mode).  '
+      'A clean run is not memory safety: red zones miss intra-object overflows and stale-but-mapped reads; memcheck covers '
+      'parser and writer only.',
+      'runtime monitoring: sanitizers plus allocation ledger, handle counters and global-state probes over replayed workloads; valgrind memcheck sample',
+      'DESIGN.md section 4, C16')
